@@ -28,6 +28,7 @@ META["text"] += ' (R8 = C07.R3) the threshold moves only while the contest is in
 META["text"] += ' (R9 = C03.R3) every ONEAudit pool mean is the assorter total over the count of the same cards.'
 META["text"] += ' R3 also borrows C09.R1: (d, u) come from mvrs_to_data of the samples handed in, so the filter of R4 is the one that decides which cards contribute.'
 META["text"] += " R4: the specified filter is evaluated on the arguments as handed in (a parameter re-bound on the way is part of the code's condition); the value functions keep no state between calls."
+META["text"] += ' (R10, N, frame condition on arguments) the data are computed from the records, which stay as they are: every function in scope changes the objects it is handed only in the ways confirmed for it (aud.ARG_EFFECTS); references are followed through aliases, elements, attributes, loop variables, .get/.items/.values and np.asarray, resolved by the bindings that reach the use.'
 
 SPEC_U = '''
 def spec(at, v, ua):
@@ -65,6 +66,10 @@ def _stmt_pos(block, pred):
 
 
 def run(chk):
+    from .. import aud as _aud8
+    _aud8.argument_effects(chk, 'C06.R10', 'shangrla/core/Audit.py', 'the data are computed from the records, which stay as they are', only=lambda q: q.startswith('Assertion.'))
+    _aud8.argument_effects(chk, 'C06.R10', 'shangrla/core/Audit.py', 'the data are computed from the records, which stay as they are', only=lambda q: q.startswith('Assorter.'))
+    _aud8.argument_effects(chk, 'C06.R10', 'shangrla/core/Audit.py', 'the data are computed from the records, which stay as they are', only=lambda q: q.startswith('Contest.'))
     idx = chk.idx
     chk.explain(
         "R1 one bound, four sites (mvrs_to_data, set_margin_from_cvrs, set_all_margins_from_cvrs, raire sample_size) by "
